@@ -1,33 +1,33 @@
 /-
-C06 — file downloads are published atomically and leave no temporary files.
-Theorems over every run, hence over every *prefix* of every run (each prefix is a crash point),
-of the file-system model of a download to a path: any interleaving of queued/executed/skipped
-writes, failures at any point (requests, stream, writes, rename), cancellation at any point.
-The explorer checks the same on the real code against a real temporary directory, inspected at
-every scheduling point, for the manager and (sequentially) the legacy front end.
+C06 — downloads to a path are published atomically and leave no temporary files.
+Quantifiers: every number of write tasks, every interleaving of the GET tasks (queueing writes),
+the io thread (testing done(), opening the temporary file, writing), failures and cancellations
+landing anywhere — also between a write task's done() test and its write — a failing write, a
+failing rename, and the cleanups.  The model is `Fs2`; the real manager's traces are replayed on it.
 -/
-import S3V.Model.Fs
+import S3V.Model.Fs2
 
 namespace S3V.C06
-open S3V.Fs
+open S3V.Fs2
 
 structure Inv (s : Fs) : Prop where
-  fin  : s.final = .absentOrPrevious ∨ (s.final = .complete ∧ s.renamed = true)
-  miss : s.missing = true → s.failed = true
-  ren  : s.renamed = true → s.temp = .absent ∧ s.failed = false ∧ s.final = .complete
-  cln  : s.cleaned = true → s.temp = .absent ∧ s.renamed = false ∧ s.failed = true
-  wac  : s.writesAfterClose = 0
-  clo  : s.temp = .closed → s.failed = true
+  i1 : s.missing = true → s.failed = true
+  i2 : s.cleaned = true → s.failed = true ∧ s.temp = .absent ∧ s.running = false ∧ s.finalRunning = false ∧ s.renamed = false
+  i3 : s.running = true → s.cleaned = false ∧ s.renamed = false ∧ s.finalPicked = false
+  i4 : s.renamed = true → s.temp = .absent ∧ s.running = false ∧ s.finalRunning = false ∧ s.final = .complete ∧
+        s.missing = false ∧ s.cleaned = false ∧ s.finalPicked = true
+  i5 : s.finalRunning = true → s.finalPicked = true ∧ s.missing = false ∧ s.running = false ∧ s.queued = 0 ∧
+        s.cleaned = false ∧ s.renamed = false
+  i7 : s.lateWrites = 0
+  i8 : s.renamed = false → s.final = .absentOrPrevious
+  i9 : s.finalPicked = true → s.running = false ∧ s.queued = 0 ∧ s.allSubmitted = true
 
 theorem init_inv : Inv ({} : Fs) := by constructor <;> simp
 
 theorem step_inv (s s' : Fs) (l : Label) (h : Inv s) (hs : step s l = some s') : Inv s' := by
-  obtain ⟨h1, h2, h3, h4, h5, h6⟩ := h
-  cases l <;> simp only [step] at hs <;>
-    (repeat' (split at hs)) <;> (first | cases hs | skip) <;>
-    (first
-      | exact ⟨h1, h2, h3, h4, h5, h6⟩
-      | (constructor <;> simp_all))
+  obtain ⟨i1, i2, i3, i4, i5, i7, i8, i9⟩ := h
+  cases l <;> simp only [step] at hs <;> (repeat' (split at hs)) <;> (first | cases hs | skip) <;>
+    (constructor <;> first | (simp_all; done) | (cases hm : s.missing <;> cases hc : s.cleaned <;> simp_all))
 
 theorem run_inv (s s' : Fs) (ls : List Label) (h : Inv s) (hr : run s ls = some s') : Inv s' := by
   induction ls generalizing s with
@@ -42,31 +42,55 @@ theorem run_inv (s s' : Fs) (ls : List Label) (h : Inv s) (hr : run s ls = some 
 previous content (or does not exist) or the complete object — never partial content. -/
 theorem final_atomic (ls : List Label) (s : Fs) (hr : run {} ls = some s) :
     s.final = .absentOrPrevious ∨ s.final = .complete := by
-  have := (run_inv {} s ls init_inv hr).fin
-  rcases this with h | h
-  · exact Or.inl h
-  · exact Or.inr h.1
-
-/-- **A failure keeps the previous content**: once the transfer has failed or was cancelled
-(before the rename), the destination is never touched. -/
-theorem failure_keeps_previous (ls : List Label) (s : Fs) (hr : run {} ls = some s)
-    (hf : s.failed = true) : s.final = .absentOrPrevious := by
   have inv := run_inv {} s ls init_inv hr
-  rcases inv.fin with h | h
-  · exact h
-  · have := (inv.ren h.2).2.1; rw [hf] at this; cases this
+  cases h : s.renamed
+  · exact Or.inl (inv.i8 h)
+  · exact Or.inr (inv.i4 h).2.2.2.1
+
+/-- **A failure keeps the previous content**: as long as the rename has not happened the
+destination is untouched, whatever failed or was cancelled. -/
+theorem failure_keeps_previous (ls : List Label) (s : Fs) (hr : run {} ls = some s)
+    (hn : s.renamed = false) : s.final = .absentOrPrevious :=
+  (run_inv {} s ls init_inv hr).i8 hn
+
+/-- … and a transfer that had failed when the final task tested `done()` is never renamed. -/
+theorem failed_before_final_never_published (s s' : Fs) (ls : List Label)
+    (h : s.finalPicked = true ∧ s.finalRunning = false ∧ s.renamed = false) (hr : run s ls = some s') :
+    s'.renamed = false ∧ s'.final = s.final := by
+  induction ls generalizing s with
+  | nil => simp only [run, Option.some.injEq] at hr; subst hr; exact ⟨h.2.2, rfl⟩
+  | cons l ls ih =>
+    simp only [run] at hr
+    cases hs : step s l with
+    | none => simp [hs] at hr
+    | some s1 =>
+      simp only [hs] at hr
+      have key : (s1.finalPicked = true ∧ s1.finalRunning = false ∧ s1.renamed = false) ∧ s1.final = s.final := by
+        obtain ⟨h1, h2, h3⟩ := h
+        cases l <;> simp only [step] at hs <;> (repeat' (split at hs)) <;> (first | cases hs | skip) <;> simp_all
+      have := ih s1 key.1 hr
+      exact ⟨this.1, by rw [this.2, key.2]⟩
 
 /-- **No temporary file once the transfer is finished**: after the rename (success) or after the
-cleanups (failure / cancellation) no temporary file exists. -/
+cleanups (failure / cancellation) no temporary file exists — in that state and, for the cleanups,
+in every later one (`cleaned_stable`). -/
 theorem no_temp_at_done (ls : List Label) (s : Fs) (hr : run {} ls = some s)
     (hd : s.renamed = true ∨ s.cleaned = true) : s.temp = .absent := by
   have inv := run_inv {} s ls init_inv hr
   rcases hd with h | h
-  · exact (inv.ren h).1
-  · exact (inv.cln h).1
+  · exact (inv.i4 h).1
+  · exact (inv.i2 h).2.1
 
-/-- A cancellation yields the previous content, or — only if it raced the final rename, i.e. the
-rename had already happened — the complete object. -/
+theorem cleaned_stable (s s' : Fs) (l : Label) (hi : Inv s) (hc : s.cleaned = true) (hs : step s l = some s') :
+    s'.cleaned = true ∧ s'.temp = .absent := by
+  have h2 := hi.i2 hc
+  have hi' := step_inv s s' l hi hs
+  have hc' : s'.cleaned = true := by
+    cases l <;> simp only [step] at hs <;> (repeat' (split at hs)) <;> (first | cases hs | skip) <;> simp_all
+  exact ⟨hc', (hi'.i2 hc').2.1⟩
+
+/-- A cancellation yields the previous content, or — only if it raced the final rename — the
+complete object. -/
 theorem cancel_keeps_previous_or_complete (ls : List Label) (s s' : Fs) (hr : run {} ls = some s)
     (hs : step s .fail = some s') :
     (s.renamed = false → s'.final = .absentOrPrevious) ∧ (s.renamed = true → s'.final = .complete) := by
@@ -75,40 +99,43 @@ theorem cancel_keeps_previous_or_complete (ls : List Label) (s s' : Fs) (hr : ru
   split at hs
   · rename_i hrn
     cases hs
-    exact ⟨(fun hn => by rw [hn] at hrn; cases hrn), (fun h => (inv.ren h).2.2)⟩
+    exact ⟨(fun hn => by rw [hn] at hrn; cases hrn), (fun h => (inv.i4 h).2.2.2.1)⟩
   · rename_i hrn
     cases hs
-    refine ⟨?_, fun h => absurd h hrn⟩
-    intro hn
-    rcases inv.fin with h | h
-    · exact h
-    · rw [hn] at h; cases h.2
+    exact ⟨fun hn => inv.i8 hn, fun h => absurd h hrn⟩
 
-/-- **No write after the cleanup**, and no write ever reaches a closed temp file. -/
+/-- **No write after the cleanup or the rename**: no write task ever ends after the cleanups ran or
+after the file was published, and once the cleanups ran no write task passes its `done()` test. -/
 theorem no_write_after_cleanup (ls : List Label) (s : Fs) (hr : run {} ls = some s) :
-    s.writesAfterClose = 0 ∧ (s.cleaned = true → ∀ ok, step s (.write ok) = none) := by
+    s.lateWrites = 0 ∧ (s.cleaned = true → step s (.pickWrite false) = none ∧ ∀ ok, step s (.writeEnd ok) = none) := by
   have inv := run_inv {} s ls init_inv hr
-  refine ⟨inv.wac, ?_⟩
-  intro hc ok
-  simp [step, hc]
+  refine ⟨inv.i7, ?_⟩
+  intro hc
+  have h2 := inv.i2 hc
+  refine ⟨?_, ?_⟩
+  · simp [step, h2.1]
+  · intro ok; simp [step, h2.2.2.1]
 
 /-- The object is published only when nothing is missing: every queued write was executed
-successfully (then C02 `file_exact` says the temp file is the object). -/
-theorem published_only_if_all_written (s s' : Fs) (h : step s (.rename true) = some s') (hi : Inv s) :
-    s.missing = false ∧ s.pending = 0 ∧ s.allSubmitted = true := by
-  simp only [step] at h
-  split at h
-  · rename_i hg
-    refine ⟨?_, hg.2.1, hg.1⟩
-    by_cases hm : s.missing = true
-    · have := hi.miss hm; simp_all
-    · simpa using hm
-  · cases h
+successfully (then C02 `file_exact` says the temp file is the object), every GET task had ended and
+no write was pending or running. -/
+theorem published_only_if_all_written (ls : List Label) (s : Fs) (hr : run {} ls = some s) (h : s.renamed = true) :
+    s.missing = false ∧ s.queued = 0 ∧ s.running = false ∧ s.allSubmitted = true := by
+  have inv := run_inv {} s ls init_inv hr
+  have h4 := inv.i4 h
+  have h9 := inv.i9 h4.2.2.2.2.2.2
+  exact ⟨h4.2.2.2.2.1, h9.2.1, h9.1, h9.2.2⟩
+
+/-- the cleanups wait for the io thread: they are not enabled while a write task is running or queued -/
+theorem cleanup_waits_for_writes (s : Fs) (h : s.running = true ∨ 0 < s.queued) : step s .cleanup = none := by
+  rcases h with h | h
+  · simp [step, h]
+  · simp [step]; intro _ hq; omega
 
 /-! ### non-vacuity -/
-example : (run {} [.queueWrite, .openTemp, .write true, .queueWrite, .write true, .getsDone, .rename true]).map
-    (fun s => (s.final, s.temp)) = some (.complete, .absent) := by decide
-example : (run {} [.queueWrite, .openTemp, .write true, .queueWrite, .fail, .skipWrite, .getsDone, .skipRename, .cleanup]).map
-    (fun s => (s.final, s.temp)) = some (.absentOrPrevious, .absent) := by decide
+example : (run {} [.queueWrite, .pickWrite false, .openTemp, .writeEnd true, .queueWrite, .pickWrite false, .writeEnd true,
+      .getsDone, .pickFinal false, .rename true]).map (fun s => (s.final, s.temp)) = some (.complete, .absent) := by decide
+example : (run {} [.queueWrite, .pickWrite false, .openTemp, .fail, .writeEnd true, .queueWrite, .pickWrite true, .getsDone,
+      .pickFinal true, .cleanup]).map (fun s => (s.final, s.temp, s.lateWrites)) = some (.absentOrPrevious, .absent, 0) := by decide
 
 end S3V.C06
